@@ -488,7 +488,8 @@ def fixed_cases(tier='thorough'):
     out = []
     # A: every statement slot x every host x (procedure call, assignment from each basic kind)
     out += proc_cases(STMT_HOSTS, STMT_SLOTS, 'A')
-    out += stmt_cases(STMT_HOSTS, STMT_SLOTS, rhs, B, 'A')
+    out += stmt_cases(fn, STMT_SLOTS, rhs, B, 'A')
+    out += stmt_cases(STMT_HOSTS[1:], STMT_SLOTS, rhs, [k for k in B if k.name in ('function', 'attribute of V')] if q else B, 'A')
     # B: every expression-bearing statement / declaration context x basic kinds
     out += stmt_cases(fn, plain, STMT_FORMS[1:], B, 'B')
     out += decl_cases(DECL_CONTEXTS, B, 'B')
